@@ -3,6 +3,7 @@
     Statements only; proofs are in Proofs/BenchTab.v. *)
 From Perf Require Import Base.Bytes Base.B64 Model.BenchTab Proofs.BenchTab Proofs.BenchTabWarn Model.Sched Proofs.Sched.
 From Perf Require Import Base.B64Order Model.StatsF Model.SampleSort Proofs.BenchMath Proofs.SampleSort.
+From Perf Require Import Model.ArrangeSpec Proofs.ArrangeSpec.
 From Coq Require Import Sorting.Permutation Sorting.Sorted.
 
 (** every state Builder.Add can reach has distinct table keys and, per table,
@@ -137,3 +138,55 @@ Example C15_both_cells_warn :
   nonsingular vals 1 (lookup_res (build ms) 0 0 0) = [0%nat] /\
   nonsingular vals 1 (lookup_res (build ms) 0 0 1) = [0%nat].
 Proof. vm_compute. split; reflexivity. Qed.
+
+(** * arrangement, and which cell a cell is compared with (Model/ArrangeSpec.v) *)
+(** the sequence of inputs and the requested orders DETERMINE the arrangement:
+    the judge's predicate [arranged] (exactly these keys; of any two the earlier
+    one precedes the later one by first observation in the stream / alpha / the
+    fixed list) accepts at most one output sequence *)
+Theorem C15_arrangement_determined : forall fs ks members o1 o2,
+  num_free fs ->
+  arranged fs ks members o1 = true -> arranged fs ks members o2 = true -> o1 = o2.
+Proof. exact arranged_unique. Qed.
+Print Assumptions C15_arrangement_determined.
+
+(** with an explicit order on every field of the column key (-col /v@alpha,
+    /v@(a b)) the first column of every table is the same for every
+    permutation of the measurements ... *)
+Theorem C15_explicit_col_order_first_col_perm_invariant : forall fc s s' t,
+  num_free fc -> forallb is_explicit fc = true -> Permutation s s' ->
+  first_col fc s t = first_col fc s' t.
+Proof. exact first_col_perm. Qed.
+Print Assumptions C15_explicit_col_order_first_col_perm_invariant.
+
+(** ... and so is the cell every cell is compared with *)
+Theorem C15_explicit_col_order_baseline_perm_invariant : forall fc s s' t r c,
+  num_free fc -> forallb is_explicit fc = true -> Permutation s s' ->
+  base_col fc s t r c = base_col fc s' t r c.
+Proof. exact base_col_perm. Qed.
+Print Assumptions C15_explicit_col_order_baseline_perm_invariant.
+
+(** REFUTED for the default (first-observation) order of the column key: a
+    permutation of the lines changes the cell a cell is compared with, hence
+    the content (delta, p-value, presence of a comparison) of cells.  Known
+    finding C15_perm_changes_baseline; witness = the auditor's in1.txt/in2.txt
+    (benchstat -col /v), columns a|b against b|a *)
+Theorem C15_line_perm_cell_content_refuted :
+  exists s s' t r c, Permutation s s' /\ base_col [FFirst] s t r c <> base_col [FFirst] s' t r c.
+Proof. exact line_perm_baseline_refuted. Qed.
+Print Assumptions C15_line_perm_cell_content_refuted.
+
+(** the hypotheses are satisfiable: the witness streams under -col /v@alpha *)
+Example C15_explicit_order_example :
+  num_free [FAlpha] /\ forallb is_explicit [FAlpha] = true /\ Permutation w_in1 w_in2 /\
+  base_col [FAlpha] w_in1 (wk "ns/op") (wk "X") (wk "b") = Some (wk "a") /\
+  base_col [FAlpha] w_in2 (wk "ns/op") (wk "X") (wk "b") = Some (wk "a") /\
+  base_col [FFirst] w_in1 (wk "ns/op") (wk "X") (wk "b") = Some (wk "a") /\
+  base_col [FFirst] w_in2 (wk "ns/op") (wk "X") (wk "b") = None /\
+  arranged [FFirst] (map e_c w_in2) (map e_c w_in2) [wk "b"; wk "a"] = true /\
+  arranged [FFirst] (map e_c w_in2) (map e_c w_in2) [wk "a"; wk "b"] = false /\
+  model_arrange [FFirst] (map e_c w_in2) (map e_c w_in2) = [wk "b"; wk "a"].
+Proof.
+  split; [intros tbl [H|[]]; discriminate|]. split; [reflexivity|]. split; [exact w_perm|].
+  vm_compute. repeat split; reflexivity.
+Qed.
